@@ -270,6 +270,50 @@ fn main() {
             }
         }
     }
+    // ---- C01: big tables (> 10k rows, so the incremental rebuild / index-driven paths run) with a
+    //      FEW unions whose consequences are known analytically; rows with a value repeated in two
+    //      columns, displaced output ids, parents of displaced rows. Known-answer checks.
+    if prop == "C01" && o.replay.is_none() {
+        let variants: Vec<(&str, Vec<(String, bool)>)> = vec![
+            ("(let $x (Num -2))\n(let $z (Num -1))\n(let $y (Add $x $x))\n(let $xp (Add $x $pad))\n(union $y $z)\n(let $w1 (Add (Add $x $x) $pad))\n(let $w2 (Add $z $pad))",
+             vec![("(= $y $z)".into(), true), ("(= (Add $x $x) $z)".into(), true), ("(= $w1 $w2)".into(), true), ("(= $x $z)".into(), false), ("(= $xp $z)".into(), false)]),
+            ("(let $z (Num -1))\n(let $x (Num -2))\n(let $w (Num -3))\n(let $y (Tri $x $w $x))\n(let $p (Add $y $pad))\n(union $z $y)",
+             vec![("(= (Tri $x $w $x) $z)".into(), true), ("(= $p $p)".into(), true), ("(= $x $w)".into(), false)]),
+            ("(let $a (Num -5))\n(let $b (Num -6))\n(let $fa (Add $a $a))\n(let $fb (Add $b $b))\n(let $ga (Tri $fa $fa $a))\n(let $gb (Tri $fb $fb $b))\n(let $pa (Add $ga $pad))\n(let $pb (Add $gb $pad))\n(union $a $b)",
+             vec![("(= $fa $fb)".into(), true), ("(= $ga $gb)".into(), true), ("(= $pa $pb)".into(), true), ("(= $fa $a)".into(), false)]),
+        ];
+        let grow = if o.thorough { 15 } else { 14 };
+        for (vi, (body, checks)) in variants.iter().enumerate() {
+            raw_cases += 1;
+            let setup = format!(
+                "(datatype E (Num i64) (Add E E) (Tri E E E))\n(let $pad (Num 0))\n(ruleset grow)\n(rule ((= e (Num i)) (> i 0) (< i {})) ((Num (* 2 i)) (Num (+ 1 (* 2 i)))) :ruleset grow)\n(Num 1)\n(run grow 20)\n(ruleset fill)\n(rule ((= e (Num i)) (> i 0)) ((Add e $pad) (Tri e $pad e)) :ruleset fill)\n(run fill 1)\n",
+                1usize << (grow - 1)
+            );
+            let mut eg = egglog::EGraph::default();
+            let (r0, p0) = step(&mut eg, &setup);
+            if r0.is_err() || p0 {
+                viols.push(Viol { what: format!("harness: big known-answer setup failed: {:?}", r0.err()), key: "harness-header".into(), program: setup.clone(), at: 0 });
+                continue;
+            }
+            let (r1, p1) = step(&mut eg, body);
+            if r1.is_err() || p1 {
+                viols.push(Viol { what: format!("big known-answer program failed: {:?}", r1.err()), key: "C01-big-failed".into(), program: format!("{setup}{body}"), at: 1 });
+                continue;
+            }
+            for (chk, want) in checks {
+                let (rc, pc) = step(&mut eg, &format!("(check {chk})"));
+                if pc || rc.is_ok() != *want {
+                    viols.push(Viol {
+                        what: format!("big tables (variant {vi}): (check {chk}) {} but by congruence closure of the single union it must {}", if rc.is_ok() { "holds" } else { "fails" }, if *want { "hold (missed equality)" } else { "fail (invented equality)" }),
+                        key: if *want { "C01-missed".into() } else { "C01-invented".into() },
+                        program: format!("{setup}{body}\n(check {chk})"),
+                        at: 2,
+                    });
+                    break;
+                }
+            }
+        }
+    }
     // ---- C06: big tables (several thousand rows, above 2048 x threads) with a few unions, so
     //      that the chunked parallel rebuild / merge / index paths see more than one chunk per
     //      worker; raw text programs, 1-thread and alt-thread engines in lockstep.
@@ -572,6 +616,37 @@ fn main() {
                                     viols.push(Viol {
                                         what: format!("after command {k}: (extract {}) returned {} which (check ..) does not place in the same class", p.pat_text(&probes[a]), txt),
                                         key: "C01-extract-outside-class".into(), program: text.clone(), at: k });
+                                }
+                            }
+                        }
+                    }
+                }
+            }
+            // ---- C13: extraction never returns a term built on a subsumed row ----
+            if prop == "C13" && ok {
+                let mut rr = Rng::for_case(o.seed ^ 0xC13, (ci * 100 + k) as u64);
+                let repr: Vec<usize> = (0..probes.len()).filter(|i| ob.classes[*i] >= 0).collect();
+                for _ in 0..3 {
+                    if repr.is_empty() {
+                        break;
+                    }
+                    let a = *rr.pick(&repr);
+                    let (res, pan) = step(&mut eg, &format!("(extract {})", p.pat_text(&probes[a])));
+                    if pan {
+                        viols.push(Viol { what: format!("after command {k}: (extract {}) panicked", p.pat_text(&probes[a])), key: "C13-extract-panic".into(), program: text.clone(), at: k });
+                        break;
+                    }
+                    if let Ok(outs) = res {
+                        for out in outs {
+                            if let egglog::CommandOutput::ExtractBest(dag, _c, t) = out {
+                                let txt = dag.to_string(t);
+                                if let Some(tp) = parse_term(p, &txt) {
+                                    // the dump `d` was taken before the extract; extraction does not change rows
+                                    if let Err(why) = d.eval_visible(p, &tp) {
+                                        viols.push(Viol {
+                                            what: format!("after command {k}: (extract {}) returned {txt}: {why}", p.pat_text(&probes[a])),
+                                            key: "C13-extracted-subsumed".into(), program: text.clone(), at: k });
+                                    }
                                 }
                             }
                         }
